@@ -128,8 +128,10 @@ func genC06(seed, index uint64, tier string) *Plan {
 			case 3:
 				op.DryRunOption = "true"
 			case 4:
+				// the SDK's boolean together with an option string; "none"/"false" then only say how much the dry run may
+				// talk to the cluster, it stays a dry run
 				op.DryRun = true
-				op.DryRunOption = g.Pick("client", "server", "true")
+				op.DryRunOption = g.Pick("client", "server", "true", "none", "false")
 			}
 			op.PostRender = g.Chance(0.3)
 			op.CreateNamespace = op.Op == "install" && g.Chance(0.4)
